@@ -30,12 +30,12 @@ var deadline = func() time.Duration {
 type Step struct {
 	K string `json:"k"` // ping | keep-ping | call | held-call | open | finish | app-bootstrap | app-call | hostile | corrupt
 	// hostile message description
-	H    string `json:"h,omitempty"`
-	IDK  int    `json:"idk,omitempty"`  // which id to name: 0 fresh, 1 live, 2 finished/absent small, 3 0xffffffff
-	Var  int    `json:"var,omitempty"`  // variant inside the kind
-	N    uint32 `json:"n,omitempty"`    // counts etc.
-	Mut  []int  `json:"mut,omitempty"`  // corrupt: (byte position, xor mask) pairs
-	Cut  int    `json:"cut,omitempty"`
+	H   string `json:"h,omitempty"`
+	IDK int    `json:"idk,omitempty"` // which id to name: 0 fresh, 1 live, 2 finished/absent small, 3 0xffffffff
+	Var int    `json:"var,omitempty"` // variant inside the kind
+	N   uint32 `json:"n,omitempty"`   // counts etc.
+	Mut []int  `json:"mut,omitempty"` // corrupt: (byte position, xor mask) pairs
+	Cut int    `json:"cut,omitempty"`
 }
 
 type Case struct {
@@ -48,26 +48,26 @@ type errList struct{ errs []string }
 func (e *errList) ReportError(err error) { e.errs = append(e.errs, err.Error()) }
 
 type harness struct {
-	c      Case
-	w      *rpcsim.Wire
-	world  *rpcsim.World
-	conn   *rpc.Conn
-	res    *pbt.Result
-	nextQ  uint32            // fresh ids for hostile messages (small range)
-	pingQ  uint32            // reserved range for pings/markers
-	liveAnswers   []uint32   // answer ids the peer has open at the Conn (Return seen or not), not finished
+	c               Case
+	w               *rpcsim.Wire
+	world           *rpcsim.World
+	conn            *rpc.Conn
+	res             *pbt.Result
+	nextQ           uint32   // fresh ids for hostile messages (small range)
+	pingQ           uint32   // reserved range for pings/markers
+	liveAnswers     []uint32 // answer ids the peer has open at the Conn (Return seen or not), not finished
 	finishedAnswers []uint32
-	exportID int64           // export id of the bootstrap capability as told by a ping Return (-1 unknown)
-	exportRefs uint32
-	connQuestions []uint32   // question ids the Conn has open at the peer (Bootstrap/Call seen, not returned)
-	appClients []*capnp.Client
-	appAnswers []*capnp.Answer
-	appReleases []capnp.ReleaseFunc
-	aborted bool
-	serial uint64
-	liveEntries int
-	answerCaps map[uint32]uint32 // export references carried by the results of a live answer (released by Finish(releaseResultCaps))
-	pendingAnswers []uint32 // answers whose implementation is held (or that are queued behind such an answer): their Return comes later
+	exportID        int64 // export id of the bootstrap capability as told by a ping Return (-1 unknown)
+	exportRefs      uint32
+	connQuestions   []uint32 // question ids the Conn has open at the peer (Bootstrap/Call seen, not returned)
+	appClients      []*capnp.Client
+	appAnswers      []*capnp.Answer
+	appReleases     []capnp.ReleaseFunc
+	aborted         bool
+	serial          uint64
+	liveEntries     int
+	answerCaps      map[uint32]uint32 // export references carried by the results of a live answer (released by Finish(releaseResultCaps))
+	pendingAnswers  []uint32          // answers whose implementation is held (or that are queued behind such an answer): their Return comes later
 }
 
 // observe collects what the Conn sent until the echo of a marker comes back (alive) or the transport is closed (aborted).
@@ -635,6 +635,65 @@ func run(c Case) (pbt.Result, error) {
 					err = pbt.Fail("valid-call-unanswered", "a valid call (question %d) got no Return", q)
 				}
 			}
+		case "release-race":
+			// A held call whose results carry an export the peer already holds, finished early with releaseResultCaps;
+			// while the Conn is busy writing the Return (it has already counted the new reference) the peer releases one
+			// reference more than it was ever given.  Whatever the Conn makes of it: no deadlock.
+			if h.exportID < 0 || h.exportRefs == 0 || len(h.pendingAnswers) > 0 {
+				continue
+			}
+			h.nextQ++
+			q := 1000 + h.nextQ
+			h.serial++
+			serial := h.serial
+			id := uint32(h.exportID)
+			h.w.SendCall(rpcsim.PeerCall{Q: q, Target: rpcsim.Target{ID: id}, Serial: serial, Flags: rpcsim.FlagHold | rpcsim.FlagNoCancel | rpcsim.CapEchoParam<<rpcsim.FlagCapShift, Caps: []rpcsim.CapDesc{{Kind: "receiverHosted", ID: id}}})
+			h.w.SendFinish(q, true)
+			if _, alive, e := h.observe(); e != nil {
+				err = e
+				break
+			} else if !alive {
+				err = pbt.Fail("abort-without-offence", "the connection shut down after a valid call and its Finish")
+				break
+			}
+			entered, gate := make(chan struct{}, 1), make(chan struct{})
+			h.w.SetGate(func(m rpcsim.Msg) {
+				if m.Which == "return" && m.ID == q {
+					select {
+					case entered <- struct{}{}:
+						<-gate
+					default:
+					}
+				}
+			})
+			h.world.Open(serial)
+			raced := false
+			select {
+			case <-entered:
+				raced = true
+				h.w.SendRelease(id, h.exportRefs+1)
+				time.Sleep(2 * time.Millisecond)
+			case <-time.After(50 * time.Millisecond):
+			}
+			h.w.SetGate(nil)
+			close(gate)
+			res.Class("hostile:release-race")
+			if raced {
+				hostileWithLive = true
+			}
+			msgs, alive, e := h.observe()
+			if e != nil {
+				err = e
+			} else if !alive {
+				err = h.checkAborted(msgs, "after an over-release timed into the transmission of a Return")
+				res.Class("outcome:abort")
+			} else {
+				res.Class("outcome:alive")
+				if raced {
+					h.exportRefs = 0
+					h.exportID = -1
+				}
+			}
 		case "open":
 			h.world.OpenUpTo(h.serial)
 			h.pendingAnswers = nil
@@ -748,7 +807,7 @@ var hostileKinds = []string{"bootstrap", "call-import", "call-answer", "call-bad
 
 func genCase(t *rapid.T) Case {
 	c := Case{NoBootstrap: rapid.IntRange(0, 7).Draw(t, "noboot") == 0}
-	kinds := []string{"ping", "keep-ping", "held-call", "err-call", "ok-call", "open", "app-bootstrap", "app-call", "hostile", "hostile", "hostile", "hostile", "corrupt"}
+	kinds := []string{"ping", "keep-ping", "held-call", "err-call", "ok-call", "open", "app-bootstrap", "app-call", "hostile", "hostile", "hostile", "hostile", "corrupt", "release-race"}
 	for i, n := 0, rapid.IntRange(1, 10).Draw(t, "n"); i < n; i++ {
 		s := Step{K: rapid.SampledFrom(kinds).Draw(t, "k")}
 		switch s.K {
@@ -773,8 +832,8 @@ func genCase(t *rapid.T) Case {
 
 var _ = pbt.Register(pbt.Spec[Case]{
 	Property: "C08", Name: "hostile-peer",
-	Rule:     "histories of up to 10 steps against a live rpc.Conn over a harness-owned transport: valid traffic that creates live table entries (Bootstrap pings kept open, calls held inside a local server object, local Bootstrap()/calls pending at the peer) interleaved with hostile messages built with the rpc.capnp schema: Bootstrap/Call/Finish/Return/Release/Disembargo naming fresh, live, finished, never-used and 2^32-1 ids; calls to absent exports and absent/finished promised answers with transforms up to field 300; params with capability descriptors of every kind incl. non-existent receiverHosted ids; raw unknown union tags; non-struct params; sendResultsTo != caller; Returns of every variant incl. capability tables naming absent exports; over-release; level-2 messages; Unimplemented; Abort; and byte-corrupted/truncated frames. Oracle after every offending message: the process lives (crash journal), and the connection is either alive (a later marker message is echoed and a fresh Bootstrap on a reserved id gets its correct Return) or aborted (at most one Abort as last message, transport closed, Done() closed); the offence is answered by one of the outcomes the protocol allows for it (exception/results Return, Unimplemented echo, Abort, or nothing for messages that are in fact legal); finally Close() returns, every local call resolves, bootstrap clients release. Non-trivial: an offending message arrived while >=1 table entry was live.",
-	Quick:    10000, Thorough: 60000,
-	Gen:      genCase,
-	Run:      run,
+	Rule:  "histories of up to 10 steps against a live rpc.Conn over a harness-owned transport: valid traffic that creates live table entries (Bootstrap pings kept open, calls held inside a local server object, local Bootstrap()/calls pending at the peer) interleaved with hostile messages built with the rpc.capnp schema: Bootstrap/Call/Finish/Return/Release/Disembargo naming fresh, live, finished, never-used and 2^32-1 ids; calls to absent exports and absent/finished promised answers with transforms up to field 300; params with capability descriptors of every kind incl. non-existent receiverHosted ids; raw unknown union tags; non-struct params; sendResultsTo != caller; Returns of every variant incl. capability tables naming absent exports; over-release; level-2 messages; Unimplemented; Abort; and byte-corrupted/truncated frames. Oracle after every offending message: the process lives (crash journal), and the connection is either alive (a later marker message is echoed and a fresh Bootstrap on a reserved id gets its correct Return) or aborted (at most one Abort as last message, transport closed, Done() closed); the offence is answered by one of the outcomes the protocol allows for it (exception/results Return, Unimplemented echo, Abort, or nothing for messages that are in fact legal); finally Close() returns, every local call resolves, bootstrap clients release. Non-trivial: an offending message arrived while >=1 table entry was live.",
+	Quick: 10000, Thorough: 60000,
+	Gen: genCase,
+	Run: run,
 })
